@@ -317,12 +317,13 @@ theorem cdUG_laws : (cdUG N).Laws where
 
 /-- the flag byte of a credit value: the writer's bits (change, staking, binding: `valueUnspentCredit`) and the spent
     bit `spendCredit` sets; positions from the regenerated tables -/
-def credFlag (c : CreditValB) : Nat :=
+def flagOf (spent change : Bool) (cls : ClassB) : Nat :=
   match wValueUnspentCredit.spans, wSpendCredit.spans with
   | [_, f, _, _], [_, g, _, _, _, _] =>
-    (flagByte (bitsAt wValueUnspentCredit f.off) [c.change, c.cls = .staking, c.cls = .binding]) |||
-      (if c.spent then flagByte (bitsAt wSpendCredit g.off) [true] else 0)
+    (flagByte (bitsAt wValueUnspentCredit f.off) [change, cls = .staking, cls = .binding]) |||
+      (if spent then flagByte (bitsAt wSpendCredit g.off) [true] else 0)
   | _, _ => 0
+def credFlag (c : CreditValB) : Nat := flagOf c.spent c.change c.cls
 
 /-- the 45-byte credit value (buckets `c` — unspent — and `mc`) -/
 def enc45 (c : CreditValB) : Bytes :=
